@@ -95,7 +95,7 @@ func Main(args []string) {
 		for i := 0; i < o.N; i++ {
 			c := &Case{Seed: r.Int63(), Procs: 1, Stream: "acyclic"}
 			cr := rand.New(rand.NewSource(c.Seed))
-			if o.Extra["cyclic"] != "" && i%20 == 19 {
+			if o.Extra["cyclic"] != "" && ((o.Tier == "thorough" && i%20 == 19) || i%70 == 39) {
 				c.Stream = "cyclic"
 				if cr.Intn(3) == 0 {
 					c.Prog = Gen(cr, GenOpts{MaxTasks: 4, Cyclic: true, NoGuards: true, MaxActs: 30})
